@@ -150,4 +150,12 @@ CHECKS = {
         "level_text": 'Decides the structural necessary conditions: no case-sensitive name lookup, order-free clause dispatch, no layout data in statements, verbatim literals. The relation between pairs of texts is not compared.',
         "level_note": 'Trusted: MIR of the nightly front end; identifier-vs-identifier comparisons (table/column names) are case-sensitive by design.',
     },
+    "C01": {
+        "modules": ["rules_c01"],
+        "explanation": "Rules on the MIR of the extraction subgraph rooted at TableDefinition::extract: site inventory (no narrowing cast / unchecked arithmetic / panic-capable construct on captured values); provenance of the group and pattern lookups (unmodified group_index / pattern_name of the column's reference); who-may-call rule for the regex API (captures, split, Captures::get, Match::as_str only; split collected completely); writer/reader agreement for the five column options (each read in the subgraph, TRIM controls str::trim, DEFAULT reaches the lookup); arm table of ValueType::parse (std FromStr of the declared type, no wildcard, no cast) and BOOLEAN = Option::is_some on both arms; purity of the subgraph (no write through arguments, no interior mutability).",
+        "trusted": ["rustc nightly MIR + trait resolution", "dependencies behave as documented"],
+        "technique": 'static site inventory, def-use provenance, who-may-call, arm-table and purity (effect) rules on MIR',
+        "level_text": 'Decides the structural clauses: which group a value is read from, that it is not cast/wrapped, which regex API is applied, that options take effect and that extraction is pure. The converted values themselves (regex engine, std parsers, chrono) are trusted.',
+        "level_note": 'Trusted: regex leftmost-match semantics, std FromStr, chrono date validation; MIR of the nightly front end.',
+    },
 }
